@@ -405,6 +405,54 @@ fn observe<P: Props>(r: template::Render<P>, nparts: usize, fail_at: Option<usiz
     }
 }
 
+/// `Display` of the rendering through a `fmt::Formatter` that carries width / precision / alignment flags, for the
+/// template as given, with adjacent text fragments merged, and with every text fragment cut into single characters.
+/// Text is written verbatim whatever the flags, so the three must agree (what the flags do to hole VALUES is the
+/// values' business and is the same in all three).
+fn flagged_split_invariant(tpl: &Template, vals: &[(&str, Value)]) -> Option<String> {
+    enum Item<'a> {
+        Text(String),
+        Hole(Part<'a>),
+    }
+    let mut merged: Vec<Item> = Vec::new();
+    let mut chars: Vec<Item> = Vec::new();
+    for p in tpl.parts() {
+        if let Some(t) = p.as_text() {
+            match merged.last_mut() {
+                Some(Item::Text(prev)) => prev.push_str(t.get()),
+                _ => merged.push(Item::Text(t.get().to_string())),
+            }
+            chars.extend(t.get().chars().map(|c| Item::Text(c.to_string())));
+        } else {
+            merged.push(Item::Hole(p.by_ref()));
+            chars.push(Item::Hole(p.by_ref()));
+        }
+    }
+    fn parts<'a>(items: &'a [Item<'a>]) -> Vec<Part<'a>> {
+        items
+            .iter()
+            .map(|i| match i {
+                Item::Text(s) => Part::text_ref(s),
+                Item::Hole(p) => p.by_ref(),
+            })
+            .collect()
+    }
+    let (pm, pc) = (parts(&merged), parts(&chars));
+    let (tm, tc) = (Template::new_ref(&pm), Template::new_ref(&pc));
+    let show = |t: &Template| -> [String; 3] {
+        [format!("{:>7}", t.render(vals)), format!("{:.1}", t.render(vals)), format!("{:*<4.2}", t.render(vals))]
+    };
+    let (a, b, c) = (show(tpl), show(&tm), show(&tc));
+    if a != b || a != c {
+        Some(format!("flagged-rendering-depends-on-text-split({}|{}|{})", hcommon::hex(a[0].as_bytes()), hcommon::hex(b[0].as_bytes()), hcommon::hex(c[0].as_bytes())))
+    } else if tpl.parts().all(|p| p.as_text().is_some()) && a.iter().any(|x| *x != tpl.render(vals).to_string()) {
+        // no holes at all: the flags have nothing to act on
+        Some("flags-changed-hole-free-text".to_string())
+    } else {
+        None
+    }
+}
+
 fn run_render(line: &str) -> String {
     (|| -> Option<String> {
         let s = Sexp::parse(line)?;
@@ -447,7 +495,7 @@ fn run_render(line: &str) -> String {
         Some(with_templates(std::slice::from_ref(&t), |tpls| {
             let tpl = &tpls[0];
             let np = tpl.parts().count();
-            match pk {
+            let out = match pk {
                 PropsKind::Slice => observe(tpl.render(&vals[..]), np, fail_at),
                 PropsKind::And(k) => observe(tpl.render((&vals[..k]).and_props(&vals[k..])), np, fail_at),
                 PropsKind::Erased => {
@@ -456,6 +504,10 @@ fn run_render(line: &str) -> String {
                     observe(tpl.render(erased), np, fail_at)
                 }
                 PropsKind::With => observe(tpl.render(emit::Empty).with_props(&vals[..]), np, fail_at),
+            };
+            match flagged_split_invariant(tpl, &vals[..]) {
+                Some(f) if !out.contains("\tFAIL:") => format!("{}\tFAIL:{}", out, f),
+                _ => out,
             }
         }))
     })()
